@@ -7,7 +7,16 @@ import "seehuhn.de/go/sfnt/zzverif/tape"
 // exercise callsubr/callgsubr, the subroutine bias or the call-depth limit;
 // this artefact does: global and local subroutines in short chains, some
 // ending in a tail call to the next subroutine, some in return.
-func HandCFF(t *tape.Tape) []byte {
+func HandCFF(t *tape.Tape) []byte { return HandCFFExtreme(t, 0) }
+
+// HandCFFExtreme is HandCFF with, for extreme > 0, a first glyph whose
+// charstring computes an operand of magnitude 2^63 or an infinity with the
+// arithmetic operators (1 followed by 64 times "dup add", optionally "neg")
+// and hands it to a stack operator as count or index: 1 roll with a huge
+// negative count, 2 roll with a huge positive count, 3 index with a huge
+// negative index, 4 a division by zero feeding roll.  Such a font may be
+// refused; the decoder must not fall over it.
+func HandCFFExtreme(t *tape.Tape, extreme int) []byte {
 	index := func(items [][]byte) []byte {
 		n := len(items)
 		out := []byte{byte(n >> 8), byte(n)}
@@ -59,6 +68,30 @@ func HandCFF(t *tape.Tape) []byte {
 	cs = append(cs, []byte{14}) // .notdef: endchar
 	for g := 1; g < nGlyphs; g++ {
 		c := []byte{num(t.Range(0, 100)), num(t.Range(0, 100)), 21} // x y rmoveto
+		if extreme > 0 && g == 1 {
+			huge := []byte{num(1)}
+			for i := 0; i < 64; i++ {
+				huge = append(huge, 12, 27, 12, 10) // dup add
+			}
+			c = []byte{num(t.Range(0, 100)), num(t.Range(0, 100)), num(t.Range(0, 100))}
+			switch extreme {
+			case 1:
+				c = append(c, num(3))
+				c = append(c, huge...)
+				c = append(c, 12, 14, 12, 30) // neg roll
+			case 2:
+				c = append(c, num(3))
+				c = append(c, huge...)
+				c = append(c, 12, 30) // roll
+			case 3:
+				c = append(c, huge...)
+				c = append(c, 12, 14, 12, 29) // neg index
+				c = append(c, 12, 18)         // drop
+			default:
+				c = append(c, num(3), num(1), num(0), 12, 12, 12, 30) // 1 0 div roll
+			}
+			c = append(c, 12, 18, 21) // drop; x y rmoveto
+		}
 		for k := t.Range(1, 3); k > 0; k-- {
 			if t.Chance(1, 2) {
 				c = append(c, num(4*t.Draw(nG/4)-107), 29)
